@@ -12,8 +12,8 @@ exactly that value before the next `advance`.
 
 === API (namespace `Dicom`) ===
   LTok                      `LazyDataToken` without the borrowed decoder
-  LErr                      err e | panic   (`expect` on an empty delimiter stack, `unreachable!` in `advance` after a
-                            peeked value token cannot occur: `peek` refuses value tokens)
+  LErr                      err e | panic | peekValue   (`unreachable!` in `advance` after a peeked value token
+                            cannot occur: `peek` refuses value tokens; the `expect` on an empty delimiter stack is gone)
   LState / LState.new       reader state;  `LState.advance : LState → Option (Except LErr LTok) × LState`
   LState.peek               `peek()`: `Except LErr (Option Token) × LState`
   LTok.skip / LTok.intoOwned   consume the value through the decoder
@@ -34,7 +34,7 @@ deriving DecidableEq, Repr
 
 inductive LErr where
   | err (e : RErr)
-  /-- the Rust code panics (`expect("item header should be read only inside an existing sequence")`) -/
+  /-- the Rust code would panic (no such place is left in `advance` since fix b2f95f8) -/
   | panic
   /-- `peek()` met a value token (`PeekSnafu`) -/
   | peekValue
@@ -77,7 +77,10 @@ def LState.advanceBody (s : LState) : Option (Except LErr LTok) × LState :=
     | .ok (.item len, d) =>
       let s1 := { s with dec := d }
       match s1.seqDelimiters with
-      | [] => (some (.error .panic), { s1 with inSequence := false })
+      | [] =>
+        -- an item header where no sequence is open: `UnexpectedItemHeader` (fix b2f95f8; it used to panic in
+        -- `expect`); `in_sequence` was already cleared, the reader is not fused
+        (some (.error (.err .unexpectedItemHeader)), { s1 with inSequence := false })
       | last :: _ =>
         let s2 := ({ s1 with inSequence := false }).push true len last.pixelData
         let s3 := if len = 0 then { s2 with delimiterCheckPending := true } else s2
